@@ -26,7 +26,9 @@ def initCtx (prev cur : DataIn) (p : RunParams) (callResults : List (String × C
     lastCallRequestId := prev.lcid, callResults := callResults,
     cid := { values := mergeStores prev.cid.values cur.cid.values,
              tetraplets := mergeStores prev.cid.tetraplets cur.cid.tetraplets,
-             serviceResults := mergeStores prev.cid.serviceResults cur.cid.serviceResults },
+             serviceResults := mergeStores prev.cid.serviceResults cur.cid.serviceResults,
+             canonElements := mergeStores prev.cid.canonElements cur.cid.canonElements,
+             canonResults := mergeStores prev.cid.canonResults cur.cid.canonResults },
     th := TraceHandler.fromTrace prev.trace cur.trace }
 
 /-- fuel that suffices for scripts of this size on these inputs: every `next` re-entry is paid for by
@@ -45,5 +47,19 @@ def defaultFuel (script : Instr) (prev cur : DataIn) : Nat :=
 def runExec (env : Env) (fuel : Nat) (script : Instr) (prev cur : DataIn) (p : RunParams)
     (callResults : List (String × CallServiceResult)) : Res ExecErr Unit × Ctx :=
   exec env fuel script (initCtx prev cur p callResults)
+
+/-- the farewell step's `compactify_streams` (runner.rs runs it after a successful execution and after
+a catchable error; an uncatchable error returns the previous data instead).  A compaction failure is the
+"internal error" exit of farewell_step/outcome.rs. -/
+def runExecFarewell (env : Env) (fuel : Nat) (script : Instr) (prev cur : DataIn) (p : RunParams)
+    (callResults : List (String × CallServiceResult)) : Res ExecErr Unit × Ctx :=
+  let (res, c) := runExec env fuel script prev cur p callResults
+  match res with
+  | .ok () | .error (.catchable _) =>
+    match c.compactifyStreams with
+    | .ok c' => (res, c')
+    | .error e => (.error e, c)
+    | .panic s => (.panic s, c)
+  | _ => (res, c)
 
 end Aqua.Exec
